@@ -136,7 +136,8 @@ inductive Outcome where
   | notInvoked
   /-- Persist failed before the sink consumed the staging directory -/
   | failBefore
-  /-- the sink consumed the staging directory and then failed -/
+  /-- the sink's Close failed at its final rename: for an incremental snapshot after the staging
+  directory was consumed, which is the sink's fatal exit (the process restarts) -/
   | failAfter
 deriving DecidableEq, Repr
 
@@ -145,6 +146,9 @@ inductive Op where
   | noop
   /-- FSM.Snapshot() -/
   | snapBegin
+  /-- FSM.Snapshot() whose checkpoint succeeds but whose WAL frames cannot be written to
+  wal-staging (walWriter.Close fails) -/
+  | snapBeginStageFails
   /-- Persist + Close / Release of the captured snapshot -/
   | snapEnd (o : Outcome)
   /-- both steps back to back, through raft (user-requested snapshot) -/
@@ -187,6 +191,17 @@ def snapBegin (lvl : Nat) (s : SM) : SM × String :=
     ({ s with staged := s.staged ++ [⟨s.file, s.db⟩], file := s.db,
               pend := some (.inc s.tail.length s.cmds) }, "incremental")
 
+/-- fsmSnapshot on the incremental path when the checkpoint succeeds and staging its frames fails:
+the WAL is in the database file but not in wal-staging. From `fix:` 4670e70 on (levels ≥ 3 here) a
+full snapshot is then required; before, nothing recorded the gap. -/
+def snapBeginStageFails (lvl : Nat) (s : SM) : SM × String :=
+  if s.pend.isSome then (s, "busy")
+  else if fullDue s then snapBegin lvl s
+  else if s.db = s.file then (s, "nowal")
+  else
+    let s' := { s with file := s.db }
+    (if lvl ≥ 3 then { s' with fullNeeded := true, gen := s.gen + 1 } else s', "err-stage")
+
 /-- Persist + sink.Close, or Release -/
 def snapEnd (lvl : Nat) (s : SM) (o : Outcome) : SM × String :=
   match s.pend with
@@ -209,7 +224,10 @@ def snapEnd (lvl : Nat) (s : SM) (o : Outcome) : SM × String :=
                   pend := none }, "installed")
     | .notInvoked => ({ s with pend := none }, "not-installed")
     | .failBefore => ({ s with pend := none }, "not-installed")
-    | .failAfter => ({ s with staged := [], fullNeeded := true, gen := s.gen + 1, pend := none }, "not-installed")
+    | .failAfter =>
+      -- Sink.Close fails after it has moved the staging directory: the sink's fatal exit
+      let (s', r) := restartSM { s with pend := none }
+      (s', if r = "ok" then "fatal-exit" else r)
   | some (.stale c) =>
     -- captured before a snapshot from the leader was installed (fsmRestore removed wal-staging)
     match c, o with
@@ -239,6 +257,7 @@ def step (lvl : Nat) (s : SM) : Op → SM × String
     ({ s with db := s.db ++ [w], tail := s.tail ++ [.write w], cmds := s.cmds + 1, applied := true }, "ok")
   | .noop => ({ s with cmds := s.cmds + 1, applied := true }, "ok")
   | .snapBegin => snapBegin lvl s
+  | .snapBeginStageFails => snapBeginStageFails lvl s
   | .snapEnd o => snapEnd lvl s o
   | .snapshot o => snapshot lvl s o
   | .load c =>
